@@ -148,6 +148,11 @@ def load(src=None, stub_dateutil=True):
             if mod is None or name.startswith("pendulum.locales."):
                 continue
             d = mod.__dict__
+            for k, v in list(d.items()):
+                # constant lookup tables of the repository: symbolic index -> ite-chain
+                if k.isupper() and isinstance(v, tuple) and v and all(
+                        isinstance(x, (int, tuple)) and not isinstance(x, bool) for x in v):
+                    d[k] = symx.symtuple(v)
             d["int"] = IntShim
             d["float"] = FloatShim
             if "copysign" in d:
